@@ -131,6 +131,51 @@ func PopulatePersistentCache(repo gitstore.Storer) error {
 	return persistent.Commit(repo)
 }
 
+// Refresh adds the policy and attestations entries recorded in the RSL after the
+// cache was last brought up to date. A cache that is not refreshed answers
+// lookups for newer entries using a policy or set of attestations that has
+// since been replaced. AddedAttestationsBeforeNumber serves as the marker for
+// how far the RSL has been scanned (for both kinds of entries): it is set to
+// the RSL's tip when the cache is populated and by every refresh, and is
+// otherwise only ever raised to the number of an existing entry.
+func (p *Persistent) Refresh(repo gitstore.Storer) error {
+	iterator, err := rsl.GetLatestEntry(repo)
+	if err != nil {
+		if errors.Is(err, rsl.ErrRSLEntryNotFound) {
+			return nil
+		}
+
+		return err
+	}
+
+	latestNumber := iterator.GetNumber()
+
+	scannedUntilNumber := p.AddedAttestationsBeforeNumber
+	for iterator.GetNumber() != 0 && iterator.GetNumber() > scannedUntilNumber {
+		if iterator, isReferenceEntry := iterator.(*rsl.ReferenceEntry); isReferenceEntry {
+			switch iterator.RefName {
+			case policyRef:
+				p.InsertPolicyEntryNumber(iterator.GetNumber(), iterator.GetID())
+			case attestations.Ref:
+				p.InsertAttestationEntryNumber(iterator.GetNumber(), iterator.GetID())
+			}
+		}
+
+		iterator, err = rsl.GetParentForEntry(repo, iterator)
+		if err != nil {
+			if errors.Is(err, rsl.ErrRSLEntryNotFound) {
+				break
+			}
+
+			return err
+		}
+	}
+
+	p.SetAddedAttestationsBeforeNumber(latestNumber)
+
+	return nil
+}
+
 // LoadPersistentCache loads the persistent cache from the tip of the local ref.
 // If an instance has already been loaded and a pointer has been stored in
 // memory, that instance is returned.
